@@ -346,11 +346,15 @@ def classify(prop, violations):
 # ---------------------------------------------------------------------------
 # evidence
 
+EVDIR = os.environ.get('VERIF_EVIDENCE_DIR') or os.path.join(VERIF, 'evidence')
+RPDIR = os.path.join(os.environ['VERIF_EVIDENCE_DIR'], 'replay') if os.environ.get('VERIF_EVIDENCE_DIR') else os.path.join(VERIF, 'replay')
+
+
 def write_evidence(prop, tier, seed, t0, cov, violations, assumptions, level='exploration'):
-    os.makedirs(os.path.join(VERIF, 'evidence'), exist_ok=True)
+    os.makedirs(EVDIR, exist_ok=True)
     ev = dict(property_id=prop, tier=tier, seed=seed, level=level, coverage=cov,
               assumptions=assumptions, wall_s=round(time.time() - t0, 1), violations=violations)
-    fn = os.path.join(VERIF, 'evidence', prop + '.json')
+    fn = os.path.join(EVDIR, prop + '.json')
     tmp = fn + '.tmp'
     json.dump(ev, open(tmp, 'w'), indent=1, sort_keys=False, default=str)
     os.replace(tmp, fn)
@@ -358,7 +362,7 @@ def write_evidence(prop, tier, seed, t0, cov, violations, assumptions, level='ex
 
 
 def save_replays(prop, violations):
-    d = os.path.join(VERIF, 'replay', prop)
+    d = os.path.join(RPDIR, prop)
     os.makedirs(d, exist_ok=True)
     for f in glob.glob(os.path.join(d, '*.json')):
         os.remove(f)
@@ -420,6 +424,11 @@ RULES = {
     'C05': 'values containing maps (any depth); each built through several histories (shuffled insertion, grow-then-shrink, decode of a randomly ordered encoding, clone) and marshalled deterministically several times; non-trivial when some map has >=2 entries',
 }
 
+RULES.update({
+    'C03': 'well-typed record streams rendered from seeded random values with mutations (reorder, duplicate scalars/messages, split singular messages, oneof member sequences, packed/unpacked alternative, split and empty packed runs, non-minimal varints, partial/duplicated/reordered map entries, foreign records in map entries, duplicate map keys, concatenation, Merge into a non-empty message); expected result decided by spec decoder and dynamicpb (must agree); non-trivial = at least one mutation applied; distinct by stream bytes',
+    'C14': 'same streams with unknown records of all wire types (incl. nested groups) injected at every nesting level; unknown set per level from the spec decoder (ground truth of what was injected where) vs struct unknownFields vs GetUnknown; re-encoding; DiscardUnknown on and off; SetUnknown/GetUnknown round trip; non-trivial = stream leaves unknown bytes at >=1 level (or, with DiscardUnknown, is non-empty)',
+})
+
 ASSUME = [
     'google.golang.org/protobuf v1.34.0 dynamicpb + proto (reflection codec) is the reference; it and the harness spec codec must agree before a case is decided',
     'the plain-Go-reflection struct reader (struct tags -> field numbers) reads generated structs correctly',
@@ -427,14 +436,20 @@ ASSUME = [
 ]
 
 
-def check_codec_family(prop, tier, seed, repo, keep):
+FLOORS = {'C01': (500, 200), 'C02': (500, 200), 'C04': (500, 200), 'C05': (100, 30), 'C03': (500, 200), 'C14': (500, 100)}
+
+
+def check_engine(prop, tier, seed, repo, keep):
     t0 = time.time()
+    cfg = PROP[prop]
     with Work(prop, repo, tier, seed, keep) as w:
-        bins = w.prepare_harness(fresh=True)
-        reps = w.run_engine(bins['plain'], 'codec')
+        bins = w.prepare_harness(fresh=cfg.get('fresh', True))
+        reps = []
+        for eng in cfg['engines']:
+            reps += w.run_engine(bins['plain'], eng)
         merged = merge_reports(reps, prop)
         gen_extra = gen_summary(w)
-        floors = {'C01': (500, 200), 'C02': (500, 200), 'C04': (500, 200), 'C05': (100, 30)}[prop]
+        floors = FLOORS[prop]
         return finish(prop, tier, seed, t0, merged, RULES[prop], ASSUME, floors[0], floors[1], extra=gen_extra)
 
 
@@ -446,7 +461,8 @@ def gen_summary(w):
 
 
 CHECKS = {
-    'C01': check_codec_family, 'C02': check_codec_family, 'C04': check_codec_family, 'C05': check_codec_family,
+    'C01': check_engine, 'C02': check_engine, 'C04': check_engine, 'C05': check_engine,
+    'C03': check_engine, 'C14': check_engine,
 }
 
 
